@@ -82,7 +82,7 @@ func genC10(g *Gen) {
 				cl := Clause{K: "leaf", Col: toBS(col), CmpK: "str", Cmp: cmp, Arg: v, Inv: g.rng.Intn(3) == 0}
 				tt := Clause{K: "leaf", Col: toBS("A"), CmpK: "str", Cmp: ">", Arg: &Val{T: "int", I: -100000}}
 				ff := Clause{K: "leaf", Col: toBS("A"), CmpK: "str", Cmp: ">", Arg: &Val{T: "int", I: 100000}}
-				switch g.rng.Intn(12) {
+				switch g.rng.Intn(14) {
 				case 5: // composite neighbours selecting every row / no row, before and after the clause under test
 					cl = Clause{K: "or", Subs: []Clause{{K: "and", Subs: []Clause{tt}}, cl}}
 				case 6:
@@ -95,6 +95,10 @@ func genC10(g *Gen) {
 					cl = Clause{K: "or", Subs: []Clause{{K: "not", Subs: []Clause{ff}}, {K: "and", Subs: []Clause{tt, cl}}}}
 				case 10:
 					cl = Clause{K: "or", Subs: []Clause{tt, {K: "not", Subs: []Clause{cl}}, ff}}
+				case 11: // plain neighbours that already select every row: the later ones are still validated
+					cl = Clause{K: "or", Subs: []Clause{tt, cl}}
+				case 12:
+					cl = Clause{K: "or", Subs: []Clause{ff, tt, cl, ff}}
 				case 0:
 					cl = Clause{K: "not", Subs: []Clause{cl}}
 				case 1:
@@ -191,6 +195,16 @@ func genC10(g *Gen) {
 		func(f int) Step { return Step{Op: "Apply", Recv: f, Instrs: []Instr{{Fn: FnRef{K: "agg", Sym: "firstAggI"}, Dst: toBS("Z"), Src1: toBS("A")}}} },
 		func(f int) Step { return Step{Op: "Eval", Recv: f, Dst: toBS("Z"), Expr: &Expr{K: "call", Op: "+"}} },
 		func(f int) Step { return Step{Op: "Eval", Recv: f, Dst: toBS("Z"), Expr: &Expr{K: "bad"}} },
+		func(f int) Step {
+			return Step{Op: "Eval", Recv: f, Dst: toBS("$z"), Expr: &Expr{K: "call", Op: "+", Args: []Expr{{K: "col", Name: toBS("A")}, {K: "const", V: &Val{T: "int", I: 1}}}}}
+		},
+		func(f int) Step {
+			return Step{Op: "Eval", Recv: f, Dst: toBS(""), Expr: &Expr{K: "call", Op: "abs", Args: []Expr{{K: "col", Name: toBS("A")}}}}
+		},
+		func(f int) Step {
+			return Step{Op: "Eval", Recv: f, Dst: toBS("'q'"), Expr: &Expr{K: "call", Op: "+", Args: []Expr{{K: "col", Name: toBS("A")}, {K: "col", Name: toBS("B")}}}}
+		},
+		func(f int) Step { return Step{Op: "Eval", Recv: f, Dst: toBS("$c"), Expr: &Expr{K: "const", V: &Val{T: "int", I: 1}}} },
 		func(f int) Step { return Step{Op: "Eval", Recv: f, Dst: toBS("Z"), Expr: &Expr{K: "call", Op: "nosuch", Args: []Expr{{K: "col", Name: toBS("A")}}}} },
 		func(f int) Step {
 			return Step{Op: "Eval", Recv: f, Dst: toBS("Z"), Expr: &Expr{K: "call", Op: "+", Args: []Expr{{K: "col", Name: toBS("A")}, {K: "col", Name: toBS("F")}}}}
